@@ -12,7 +12,8 @@ from vlib.core import PropertyViolation, Recorder, hyp_search, violation_record,
 
 PROPERTY = "C07"
 RULE = (
-    "case = (call plan over fa/fb/fc, as in C03) x (focus-free selector tree, or focused tree forced to "
+    "case = (call plan over fa/fb/fc, as in C03) x (focus-free selector tree, two focus-free trees in one probe, a "
+    "focus-free and a focused tree in one probe with the default probe type, or focused tree forced to "
     "total mode) x delivery (probing(raw=True) / BaseOverlay+Total on tooled copies). Non-trivial = the "
     "outermost function is activated recursively, or a record holds a capture with >=2 values coming from "
     ">=2 different activations, or an outermost activation ends by exception, or a record is suppressed "
